@@ -104,19 +104,19 @@ Proof.
   apply (IH (p_end i)); [exact HC|]. pose proof (wf_wave_end_pos _ Hw). unfold p_end. lra.
 Qed.
 
-Lemma gaps_ok_eq a b l : a == b -> gaps_ok a l -> gaps_ok b l.
+Lemma gaps_ok_eq gtl a b l : a == b -> gaps_ok gtl a l -> gaps_ok gtl b l.
 Proof.
   intro E. destruct l as [|j l]; [tauto|]. intros [A B]. split; [|exact B].
   destruct A as [A|A]; [left|right]; lra.
 Qed.
 
 (* ---------- discrete channels: compiled step function = specification ---------- *)
-Lemma chan_eval_nf l : forall lst ms md ts cs ms' md',
-  chain_ord lst l -> gaps_ok lst l -> Forall (fun i => is_discrete (p_wave i)) l ->
-  concat_chan true false lst ms md l = Some (ts, cs, ms', md') ->
+Lemma chan_eval_nf gtl l : (forall s, 0 < s -> 0 <= gtl s) -> forall lst ms md ts cs ms' md',
+  chain_ord lst l -> gaps_ok gtl lst l -> Forall (fun i => is_discrete (p_wave i)) l ->
+  concat_chan true gtl false lst ms md l = Some (ts, cs, ms', md') ->
   forall t, eval_segs lst ts cs t = if Qle_bool lst t then spec_eval l t else 0.
 Proof.
-  induction l as [|i rest IH]; intros lst ms md ts cs ms' md' HC HG HD H t.
+  intro Hgt. induction l as [|i rest IH]; intros lst ms md ts cs ms' md' HC HG HD H t.
   - cbn in H. injection H as <- <- _ _. cbn. destruct (Qle_bool lst t); reflexivity.
   - destruct HC as (Hw & Hle & HC). destruct HG as [HG0 HG].
     pose proof (Forall_inv HD) as Hd. cbn beta in Hd. apply Forall_inv_tail in HD.
@@ -136,7 +136,7 @@ Proof.
     set (L := last ex s) in *.
     assert (EL : L == p_end i) by (unfold p_end; fold s; lra).
     assert (HC' : chain_ord L rest) by (apply chain_ord_eq with (a := p_end i); [lra|exact HC]).
-    assert (HG' : gaps_ok L rest) by (apply gaps_ok_eq with (a := p_end i); [lra|exact HG]).
+    assert (HG' : gaps_ok gtl L rest) by (apply gaps_ok_eq with (a := p_end i); [lra|exact HG]).
     pose proof (IH _ _ _ _ _ _ _ HC' HG' HD ER) as IHt. clear IH.
     (* lengths of the executed block *)
     assert (Hlen : length ex = length (w_cs (p_wave i))).
@@ -159,12 +159,12 @@ Proof.
         assert (E4 : Qle_bool L t = true) by (apply Qle_bool_iff; exact E1).
         rewrite E4. reflexivity. }
     assert (Hinc : incr_from s (ex ++ ts')).
-    { apply incr_app; [exact Einc|]. exact (chan_incr_nf _ _ _ _ _ _ _ _ HC' ER). }
-    destruct (Qlt_b (step_of (p_wave i) * tol) (Qabs (s - lst))) eqn:EGap.
+    { apply incr_app; [exact Einc|]. exact (chan_incr_nf _ _ _ _ _ _ _ _ _ Hgt HC' ER). }
+    destruct (Qlt_b (gtl (step_of (p_wave i))) (Qabs (s - lst))) eqn:EGap.
     + (* idle gap *)
       cbn in EI. injection EI as <-. qb. rewrite Qabs_pos in EGap by lra.
       assert (Hlt : lst < s).
-      { pose proof tol_pos. assert (0 < step_of (p_wave i) * tol) by (apply Qmult_lt_0_compat; assumption). lra. }
+      { pose proof (Hgt _ Hs). lra. }
       cbn [app zeros map eval_segs].
       destruct (Qlt_b t s) eqn:E1; qb.
       * assert (Z : spec_eval (i :: rest) t = 0).
@@ -183,17 +183,18 @@ Proof.
 Qed.
 
 (* the whole discrete channel *)
-Lemma chan_eval l ms md ts cs ms' md' :
-  chain_ord 0 l -> gaps_ok 0 l -> Forall (fun i => is_discrete (p_wave i)) l ->
-  concat_chan true true 0 ms md l = Some (ts, cs, ms', md') ->
+Lemma chan_eval gtl l ms md ts cs ms' md' :
+  (forall s, 0 < s -> 0 <= gtl s) ->
+  chain_ord 0 l -> gaps_ok gtl 0 l -> Forall (fun i => is_discrete (p_wave i)) l ->
+  concat_chan true gtl true 0 ms md l = Some (ts, cs, ms', md') ->
   forall t, eval_step ts cs t = spec_eval l t.
 Proof.
-  intros HC HG HD H t. destruct l as [|i rest].
+  intros Hgt HC HG HD H t. destruct l as [|i rest].
   - cbn in H. injection H as <- <- _ _. reflexivity.
   - apply concat_first in H. destruct H as (ts0 & cs0 & H & -> & Hcs).
     destruct Hcs as [[_ ->]|[_ [Hnd _]]].
     2:{ exfalso. apply Hnd. exact (Forall_inv HD). }
-    cbn [eval_step]. rewrite (chan_eval_nf _ _ _ _ _ _ _ _ HC HG HD H t).
+    cbn [eval_step]. rewrite (chan_eval_nf _ _ Hgt _ _ _ _ _ _ _ HC HG HD H t).
     destruct (Qle_bool 0 t) eqn:E; [reflexivity|]. qb.
     symmetry. apply (spec_before _ 0); assumption.
 Qed.
@@ -217,9 +218,9 @@ Qed.
 
 Definition wf_cont (i : pinstr) : Prop := wf_wave (p_wave i) /\ is_continuous (p_wave i).
 
-Lemma chan_samples_nf l : forall lst ms md ts cs ms' md',
+Lemma chan_samples_nf gtl l : forall lst ms md ts cs ms' md',
   Forall wf_cont l ->
-  concat_chan true false lst ms md l = Some (ts, cs, ms', md') ->
+  concat_chan true gtl false lst ms md l = Some (ts, cs, ms', md') ->
   (forall i, In i l -> incl (samples i) (combine ts cs)) /\
   (forall t c, In (t, c) (combine ts cs) -> c = 0 \/ exists i, In i l /\ In (t, c) (samples i)).
 Proof.
@@ -250,20 +251,20 @@ Proof.
            right. exists j. split; [right; exact Hj|exact Hs].
 Qed.
 
-Lemma chan_samples l ms md ts cs ms' md' :
+Lemma chan_samples gtl l ms md ts cs ms' md' :
   l <> [] -> Forall wf_cont l ->
-  concat_chan true true 0 ms md l = Some (ts, cs, ms', md') ->
+  concat_chan true gtl true 0 ms md l = Some (ts, cs, ms', md') ->
   length ts = length cs /\
   (forall i, In i l -> incl (samples i) (combine ts cs)) /\
   (forall t c, In (t, c) (combine ts cs) -> c = 0 \/ exists i, In i l /\ In (t, c) (samples i)).
 Proof.
   intros Hne HW H. destruct l as [|i rest]; [congruence|].
-  pose proof (chan_lengths_first _ _ _ _ _ _ _ _ _ H) as HL.
+  pose proof (chan_lengths_first _ _ _ _ _ _ _ _ _ _ H) as HL.
   apply concat_first in H. destruct H as (ts0 & cs0 & H & -> & Hcs).
   pose proof (Forall_inv HW) as [Hw Hc].
   destruct Hcs as [[Hd _]|[_ [_ ->]]].
   { exfalso. unfold is_discrete, is_continuous in *. lia. }
-  destruct (chan_samples_nf _ _ _ _ _ _ _ _ HW H) as [IA IB].
+  destruct (chan_samples_nf _ _ _ _ _ _ _ _ _ HW H) as [IA IB].
   split.
   - destruct HL as [[Hd _]|[_ [_ HL]]]; [|exact HL].
     exfalso. unfold is_discrete, is_continuous in *. lia.
